@@ -603,6 +603,8 @@ package pipeline
 //@   loop 1 invariant 0 <= index && nfin == 0 && l == len(p.actions) && len(p.busyActions) == old(len(p.busyActions)) && len(p.busyActions) == l && len(p.actionInfos) == l
 //@   callee Do(e) (r)
 //@     requires e == event
+//@     set greset := 0
+//@     set gmark := 0
 //@     ensures len(p.actions) == old(len(p.actions)) && len(p.busyActions) == old(len(p.busyActions)) && len(p.actionInfos) == old(len(p.actionInfos))
 //@     set res := r
 //@   callee finalize(e, notifyInput, backEvent)
@@ -611,11 +613,13 @@ package pipeline
 //@     requires !notifyInput
 //@     requires res == ActionDiscard || res == ActionCollapse || res == ActionHold
 //@     requires backEvent == (res != ActionHold)
+//@     requires (res == ActionDiscard) == (greset == 1) && (res != ActionDiscard) == (gmark == 1)
 //@     preserves processor
 //@     set nfin := nfin + 1
 //@   callee countEvent(e, i, s)
 //@     requires s == eventStatusNotMatched ==> 0 <= i && i < len(p.busyActions) && !p.busyActions[i] && event.kind != EventKindTimeout
 //@     preserves processor
+//@     set gidx := i
 //@   callee isMatch(i, e)
 //@     preserves processor
 //@   callee setEventBefore(i, e)
@@ -623,12 +627,25 @@ package pipeline
 //@   callee setEventAfter(i, e, s)
 //@     requires nback == 0
 //@     preserves processor
+//@   ghost greset int = 0
+//@   ghost gmark int = 0
+//@   ghost gidx int = 0
 //@   callee tryResetBusy(i)
 //@     requires 0 <= i && i < len(p.busyActions)
+//@     requires i == gidx
+//@     requires res != ActionCollapse && res != ActionHold
 //@     ensures len(p.actions) == old(len(p.actions)) && len(p.busyActions) == old(len(p.busyActions)) && len(p.actionInfos) == old(len(p.actionInfos))
+//@     set greset := 1
 //@   callee tryMarkBusy(i)
 //@     requires 0 <= i && i < len(p.busyActions)
+//@     requires i == gidx
+//@     requires res == ActionCollapse || res == ActionHold
 //@     ensures len(p.actions) == old(len(p.actions)) && len(p.busyActions) == old(len(p.busyActions)) && len(p.actionInfos) == old(len(p.actionInfos))
+//@     set gmark := 1
+
+// (C15 / C04: an action is busy - waits for the next event of the stream, gets its
+// time-outs - exactly while it answered collapse or hold last: pass, break and discard
+// release it, collapse and hold mark it, for the action that has just answered.)
 
 // processSequence: a passed event is handed to the output exactly once (an
 // unlock event stops the sequence instead); a non-passed event never is.
@@ -869,6 +886,9 @@ package pipeline
 //@   ghost m bool = false
 //@   requires 0 <= index && index < len(p.actionInfos)
 //@   ensures p.actionInfos[index].DoIfChecker == nil ==> result == (m != p.actionInfos[index].MatchInvert)
+//@   ghost gd bool = false
+//@   ghost ndo int = 0
+//@   ensures p.actionInfos[index].DoIfChecker != nil ==> ndo == 1 && result == gd
 //@   callee isMatchOr(c, e, bp) (r)
 //@     requires (info.MatchMode == MatchModeOr || info.MatchMode == MatchModeOrPrefix) && bp == (info.MatchMode == MatchModeOrPrefix) && c == info.MatchConditions
 //@     pure
@@ -877,10 +897,15 @@ package pipeline
 //@     requires !(info.MatchMode == MatchModeOr || info.MatchMode == MatchModeOrPrefix) && bp == (info.MatchMode == MatchModeAndPrefix) && c == info.MatchConditions
 //@     pure
 //@     set m := r
-//@   callee Check(d)
+//@   callee Check(d) (r)
 //@     pure
+//@     set gd := r
+//@     set ndo := ndo + 1
 //@   callee NewEventData(r)
 //@     pure
+
+// (With a do_if checker the decision is the checker's, as it is: match_invert belongs to
+// the legacy match_fields conditions and must not negate it.)
 
 // ---------------------------------------------------------------------------
 // C19: Batch.ForEach calls the callback for exactly the deliverable (non
@@ -1468,3 +1493,20 @@ package pipeline
 //@     requires !held(s.blockedMu) && 0 <= rangeindex && rangeindex < len(streams) && recv == streams[rangeindex] && ntry == rangeindex
 //@     preserves streamer, *stream
 //@     set ntry := ntry + 1
+
+// ---------------------------------------------------------------------------
+// C19: Event.Encode (the helper every sink uses to append a document to its per-worker
+// batch buffer).  It appends: what the buffer held before - the documents of the
+// earlier events of the batch - is still there, byte for byte, in front of the new
+// document; the second result is where the new document starts.  (insane-json's Encode
+// is the environment: it appends to the slice it is given - same prefix - whether or not
+// it has to move to a bigger block.)
+
+//@ func (*Event).Encode
+//@   ensures result1 == len(outBuf)
+//@   ensures len(result0) >= len(outBuf)
+//@   ensures forall k :: 0 <= k && k < len(outBuf) ==> result0[k] == old(outBuf[k])
+//@   callee Node.Encode(b) (r)
+//@     requires sameblock(b, outBuf) && off(b) == off(outBuf) && len(b) == len(outBuf)
+//@     pure
+//@     ensures len(r) >= len(b) && (forall k :: 0 <= k && k < len(b) ==> r[k] == b[k])
